@@ -5,6 +5,11 @@
 //!        hb_aat_layout_track on a bare buffer whose positions start as advance 1000 / offset 0 on both axes;
 //!        `t` (the tracking amount at that size, which the crate interpolates in floats) is for the model only.
 //!        reply: ok <xa:ya:xo:yo,...>
+//!   trak poscx <fonthex> <ptem|-> <dir> <flags> <level> <scratch> <t> <cluster.props.gprops.on,...>
+//!        the whole of position_complex (tracking inside position_by_plan, late mark zeroing, default-ignorable zeroing,
+//!        finish_offsets, fallback mark positioning) on a bare buffer (advance 1000 / offset 0 on both axes), plan compiled for
+//!        the font (default shaper); props = packed unicode_props, gprops = glyph_props; `t` is for the model only.
+//!        reply: ok <xa:ya:xo:yo,...>
 use super::util::hex_bytes;
 use rustybuzz::verif::ot_shape as vs;
 use rustybuzz::{Direction, Face};
@@ -54,6 +59,49 @@ pub fn handle(toks: &[&str], _st: &mut crate::State) -> Option<String> {
             };
             face.set_points_per_em(Some(ptem));
             let r = vs::track_of(&face, dir, level, &items);
+            Some(format!(
+                "ok {}",
+                r.iter()
+                    .map(|(a, b, c, d)| format!("{}:{}:{}:{}", a, b, c, d))
+                    .collect::<Vec<_>>()
+                    .join(",")
+            ))
+        }
+        "poscx" => {
+            let data = hex_bytes(toks.get(2)?)?;
+            let ptem: Option<f32> = match *toks.get(3)? {
+                "-" => None,
+                x => Some(x.parse().ok()?),
+            };
+            let dir = match *toks.get(4)? {
+                "l" => Direction::LeftToRight,
+                "r" => Direction::RightToLeft,
+                "t" => Direction::TopToBottom,
+                "b" => Direction::BottomToTop,
+                _ => return None,
+            };
+            let flags: u32 = toks.get(5)?.parse().ok()?;
+            let level: u32 = toks.get(6)?.parse().ok()?;
+            let scratch: u32 = toks.get(7)?.parse().ok()?;
+            let mut items = vec![];
+            for x in toks.get(9)?.split(',') {
+                let p: Vec<&str> = x.split('.').collect();
+                if p.len() != 4 {
+                    return None;
+                }
+                items.push((
+                    p[0].parse().ok()?,
+                    p[1].parse().ok()?,
+                    p[2].parse().ok()?,
+                    p[3] == "1",
+                ));
+            }
+            let mut face = match Face::from_slice(&data, 0) {
+                Some(f) => f,
+                None => return Some("reject".into()),
+            };
+            face.set_points_per_em(ptem);
+            let r = vs::position_complex_of(&face, dir, flags, level, scratch, &items);
             Some(format!(
                 "ok {}",
                 r.iter()
